@@ -3,6 +3,7 @@ package main
 import (
 	"fmt"
 	"go/constant"
+	"go/token"
 	"go/types"
 	"sort"
 	"strings"
@@ -609,6 +610,46 @@ func checkScalarPairs(w *World, c *Check, t *tables, rule string) {
 			}
 		}
 	}
+	// readers of whole numbers: a getter that returns an integer takes it from the parser's integer accessor, not from
+	// the float one (int64(v.GetFloat64()) is exact only up to 2^53, and MaxInt64 wraps to MinInt64)
+	for g := range t.getter {
+		res := g.Signature.Results()
+		if res.Len() != 1 {
+			continue
+		}
+		bt, ok := types.Unalias(res.At(0).Type()).Underlying().(*types.Basic)
+		if !ok || bt.Info()&types.IsInteger == 0 {
+			continue
+		}
+		if _, isNamed := types.Unalias(res.At(0).Type()).(*types.Named); isNamed {
+			continue // time.Duration and friends have their own rule
+		}
+		via := ""
+		for _, call := range callsIn(g) {
+			cal := call.Common().StaticCallee()
+			if cal == nil || cal.Object() == nil || cal.Object().Pkg() == nil || !strings.HasSuffix(cal.Object().Pkg().Path(), "fastjson") {
+				continue
+			}
+			switch cal.Name() {
+			case "GetFloat64", "Float64":
+				via = cal.Name()
+			}
+		}
+		if via == "" {
+			// strconv.ParseFloat on the text is the same mistake
+			for _, call := range callsIn(g) {
+				if cal := call.Common().StaticCallee(); cal != nil && cal.Object() != nil && cal.Object().Pkg() != nil && cal.Object().Pkg().Path() == "strconv" && cal.Name() == "ParseFloat" {
+					via = "strconv.ParseFloat"
+				}
+			}
+		}
+		key := "int-reader:" + funcName(g)
+		if via != "" {
+			c.bad(rule, key, w.FuncPos(g), fmt.Sprintf("%s returns a whole number but reads it through %s: integers beyond 2^53 (radius, totalItems, startIndex, width, height) come back changed, and the largest ones change sign", funcName(g), via))
+		} else {
+			c.ok(rule, key, w.FuncPos(g), "read with the integer accessor")
+		}
+	}
 	c.floor(rule, 3)
 }
 
@@ -738,6 +779,7 @@ func checkC05(w *World, c *Check, tier string) {
 	}
 	c.floor("C05.R-cover", 300)
 	checkNothingInvented(w, c, t)
+	checkCarriedState(w, c, "C05.carry")
 	c.floor("C05.R-map", 20)
 	c.floor("C05.shape", 2)
 	c.floor("C05.type", 3)
@@ -1096,4 +1138,107 @@ func checkNothingInvented(w *World, c *Check, t *tables) {
 	}
 	c.stat("loader_field_stores", n)
 	c.floor("C05.invent", 80)
+}
+
+// checkCarriedState (C05.carry): the callback handed to the JSON parser's member iteration (Object.Visit) runs once per
+// member. A struct-typed variable it captures from the enclosing decoder and both writes and reads is state carried
+// from one member to the next: every read of it (of a field, or of the whole value when it is appended to the result)
+// must be preceded, inside the callback and on every path, by a store to each field read — otherwise a member that
+// does not set a field (an entry without a text) silently takes the previous member's value: text is invented.
+func checkCarriedState(w *World, c *Check, rule string) {
+	n := 0
+	for _, f := range w.Funcs {
+		for _, call := range callsIn(f) {
+			cal := call.Common().StaticCallee()
+			if cal == nil || cal.Object() == nil || cal.Object().Pkg() == nil || !strings.HasSuffix(cal.Object().Pkg().Path(), "fastjson") || cal.Name() != "Visit" {
+				continue
+			}
+			mc := closureArg(call)
+			if mc == nil {
+				continue
+			}
+			g := mc.Fn.(*ssa.Function)
+			n++
+			key := fmt.Sprintf("%s:visit#%d", funcName(f), n)
+			bad := ""
+			for fi, fv := range g.FreeVars {
+				pt, ok := types.Unalias(fv.Type()).Underlying().(*types.Pointer)
+				if !ok {
+					continue
+				}
+				st, ok := types.Unalias(pt.Elem()).Underlying().(*types.Struct)
+				if !ok || fi >= len(mc.Bindings) {
+					continue
+				}
+				// stores and loads through the captured cell
+				type acc struct {
+					in    ssa.Instruction
+					field int // -1: whole value
+				}
+				var stores, loads []acc
+				for _, r := range *fv.Referrers() {
+					switch x := r.(type) {
+					case *ssa.Store:
+						if x.Addr == ssa.Value(fv) {
+							stores = append(stores, acc{x, -1})
+						}
+					case *ssa.UnOp:
+						if x.Op == token.MUL {
+							loads = append(loads, acc{x, -1})
+						}
+					case *ssa.FieldAddr:
+						for _, r2 := range *x.Referrers() {
+							switch y := r2.(type) {
+							case *ssa.Store:
+								if y.Addr == ssa.Value(x) {
+									stores = append(stores, acc{y, x.Field})
+								}
+							case *ssa.UnOp:
+								if y.Op == token.MUL {
+									loads = append(loads, acc{y, x.Field})
+								}
+							}
+						}
+					}
+				}
+				if len(stores) == 0 || len(loads) == 0 {
+					continue // read-only configuration, or a pure output cell
+				}
+				dominatedBy := func(ld ssa.Instruction, field int) bool {
+					for _, s := range stores {
+						if s.field != field && s.field != -1 {
+							continue
+						}
+						if s.in.Block() == ld.Block() && instrIndex(s.in) < instrIndex(ld) {
+							return true
+						}
+						if s.in.Block() != ld.Block() && s.in.Block().Dominates(ld.Block()) {
+							return true
+						}
+					}
+					return false
+				}
+				for _, ld := range loads {
+					fields := []int{ld.field}
+					if ld.field == -1 {
+						fields = nil
+						for k := 0; k < st.NumFields(); k++ {
+							fields = append(fields, k)
+						}
+					}
+					for _, k := range fields {
+						if !dominatedBy(ld.in, k) {
+							bad = fmt.Sprintf("the per-member callback reads field %s of the captured %s at %s without having set it on every path of this call: a member that does not set it keeps the value of the member visited before (a language-map entry without a text takes the previous entry's text)", st.Field(k).Name(), typeName(pt.Elem()), w.InstrPos(ld.in))
+						}
+					}
+				}
+			}
+			if bad != "" {
+				c.bad(rule, key, w.InstrPos(call), bad)
+			} else {
+				c.ok(rule, key, w.InstrPos(call), "no struct state is carried from one member to the next")
+			}
+		}
+	}
+	c.stat("member_iteration_callbacks", n)
 }
